@@ -64,6 +64,16 @@ def _pmul_mono(m1, m2):
     d = dict(m1)
     for a, k in m2:
         d[a] = d.get(a, 0) + k
+    c = _ctx._CUR[0]
+    if c is not None and c.inv_pair:
+        for a in list(d):
+            b = c.inv_pair.get(a)
+            if b is not None and a in d and b in d:
+                k = min(d[a], d[b])
+                for x in (a, b):
+                    d[x] -= k
+                    if d[x] == 0:
+                        del d[x]
     return tuple(sorted(d.items()))
 
 
@@ -567,6 +577,11 @@ def _inv_atom(bn):
         c.add_axiom(v * bz == 1)
         c.div_guards.append(bz)
         c.inv_of[idx] = SymReal(bn.p)
+        if len(bn.p) == 1:
+            (m, co), = bn.p.items()
+            if len(m) == 1 and m[0][1] == 1 and co == 1:
+                c.inv_pair[m[0][0]] = idx
+                c.inv_pair[idx] = m[0][0]
     return SymReal({((idx, 1),): Fr(1)})
 
 
@@ -841,11 +856,17 @@ def exp(a):
         r = la
     else:
         def build(v, az, idx):
+            for (xc, yc) in c.exp_points:
+                _exp_point_axiom(c, v, az, xc, yc)
+            for (j, larg) in c.fun_atoms.get('log', []):
+                _log_exp_cross(c, c.atoms[j], larg.z3(), v, az)
             c.add_axiom(v > 0)
             # exp(u) >= 1 + u (tangent at 0), cheap and often enough
             c.add_axiom(v >= 1 + az)
             c.add_axiom(z3.Implies(az < 0, v < 1))
             c.add_axiom(z3.Implies(az == 0, v == 1))
+            # e^u (1-u) <= 1 for every real u: with the tangent this pins e^u near u = 0
+            c.add_axiom(v * (1 - az) <= 1)
             for (j, other) in c.fun_atoms.get('exp', []):
                 if j == idx:
                     continue
@@ -862,6 +883,50 @@ def exp(a):
         r = lift(r)
         return _mk(r.p, mul(SymReal(r.p), a.d))
     return r
+
+
+def _log_exp_cross(c, L, X, V, u):
+    """L = log(X), V = exp(u):  X <=> V decides L <=> u (log is the inverse of exp)."""
+    c.add_axiom(z3.Implies(X > 0, z3.And(z3.Implies(X < V, L < u), z3.Implies(X > V, L > u),
+                                        z3.Implies(X == V, L == u))))
+
+
+def _exp_point_axiom(c, v, az, xc, yc):
+    """Monotonicity against a concrete point (x_c, fl(exp x_c)); 4 ulp slack for libm."""
+    xz = _rv(Fr(xc))
+    lo = _rv(Fr(yc) * (1 - Fr(1, 2 ** 50)))
+    hi = _rv(Fr(yc) * (1 + Fr(1, 2 ** 50)))
+    c.add_axiom(z3.And(z3.Implies(az <= xz, v <= hi), z3.Implies(az >= xz, v >= lo)))
+
+
+def note_exp_point(x, y):
+    """Called by the numpy shim when exp() is evaluated on a concrete argument."""
+    c = _ctx._CUR[0]
+    if c is None:
+        return
+    try:
+        x = float(x)
+        y = float(y)
+    except (TypeError, ValueError):
+        return
+    if not (math.isfinite(x) and math.isfinite(y)) or y <= 0:
+        return
+    if any(abs(x - xc) <= 1e-300 for xc, _ in c.exp_points) or len(c.exp_points) > 40:
+        return
+    c.exp_points.append((x, y))
+    for (idx, arg) in c.fun_atoms.get('exp', []):
+        _exp_point_axiom(c, c.atoms[idx], arg.z3(), x, y)
+    # the same point constrains log atoms: log(t) vs x at t = y
+    for (idx, arg) in c.fun_atoms.get('log', []):
+        _log_point_axiom(c, c.atoms[idx], arg.z3(), y, x)
+
+
+def _log_point_axiom(c, v, az, tc, lc):
+    tz_lo = _rv(Fr(tc) * (1 - Fr(1, 2 ** 50)))
+    tz_hi = _rv(Fr(tc) * (1 + Fr(1, 2 ** 50)))
+    lz = _rv(Fr(lc))
+    c.add_axiom(z3.And(z3.Implies(z3.And(az > 0, az <= tz_lo), v <= lz),
+                       z3.Implies(az >= tz_hi, v >= lz)))
 
 
 def log(a):
@@ -883,7 +948,11 @@ def log(a):
                 return r
 
     def build(v, az, idx):
+        for (j, earg) in c.fun_atoms.get('exp', []):
+            _log_exp_cross(c, v, az, c.atoms[j], earg.z3())
         c.log_guards.append(az)
+        for (xc, yc) in c.exp_points:
+            _log_point_axiom(c, v, az, yc, xc)
         c.add_axiom(z3.Implies(az > 0, v <= az - 1))
         c.add_axiom(z3.Implies(az > 1, v > 0))
         c.add_axiom(z3.Implies(z3.And(az > 0, az < 1), v < 0))
